@@ -12,7 +12,8 @@ import (
 // ---------- goroutines ----------
 
 func (st *State) spawn(parent *G, fnv Val, args []Val, c *ssa.CallCommon, in ssa.Instruction) {
-	ng := &G{ID: len(st.gs), Status: "runnable"}
+	st.accessSeq++
+	ng := &G{ID: len(st.gs), Status: "runnable", Parent: parent.ID, SpawnSeq: st.accessSeq}
 	var fn *ssa.Function
 	var binds []Val
 	if c.IsInvoke() {
@@ -297,6 +298,7 @@ func (st *State) atVisible(g *G) bool {
 
 // finish: no goroutine can run. Decide between normal end and deadlock.
 func (st *State) finish() {
+	st.reportRaces()
 	var stuck []string
 	for _, o := range st.gs {
 		if o.Status == "blocked" {
@@ -538,13 +540,146 @@ func (st *State) execSelect(g *G, fr *Frame, x *ssa.Select) bool {
 
 // ---------- heap access log (locksets) ----------
 
-func (st *State) noteAccess(g *G, l *Loc, write bool, in ssa.Instruction) {
-	if !st.logAccess {
-		return
-	}
+func (st *State) heldIDs(g *G) []int {
 	var locks []int
 	for _, h := range g.Held {
 		locks = append(locks, h.ID)
 	}
-	st.accessLog = append(st.accessLog, Access{Loc: l, Write: write, Pos: st.eng.pos(instrPos(in)), G: g.ID, Locks: locks, Fn: in.Parent().String()})
+	return locks
+}
+
+func safePos(st *State, in ssa.Instruction) string {
+	if in == nil {
+		return "?"
+	}
+	if c, ok := in.(*ssa.Call); ok && c == nil {
+		return "?"
+	}
+	return st.eng.pos(instrPos(in))
+}
+
+func safeFn(in ssa.Instruction) string {
+	if in == nil {
+		return "?"
+	}
+	if c, ok := in.(*ssa.Call); ok && c == nil {
+		return "?"
+	}
+	return in.Parent().String()
+}
+
+// orderedByGo: access a (in goroutine ga) happens before every access of goroutine gb
+// if gb descends from ga and was spawned after a.
+func (st *State) orderedByGo(a Access, gb int) bool {
+	c := gb
+	for c >= 0 && c < len(st.gs) {
+		g := st.gs[c]
+		if g.Parent == a.G && c != a.G {
+			return a.Seq < g.SpawnSeq
+		}
+		if g.Parent == c || g.Parent < 0 {
+			return false
+		}
+		c = g.Parent
+	}
+	return false
+}
+
+func (st *State) noteAccess(g *G, l *Loc, write bool, in ssa.Instruction) {
+	if !st.logAccess || g == nil {
+		return
+	}
+	pos := safePos(st, in)
+	if strings.Contains(pos, "zz_verif") {
+		return // harness code
+	}
+	st.accessSeq++
+	st.accessLog = append(st.accessLog, Access{Loc: l, Write: write, Pos: pos, G: g.ID, Locks: st.heldIDs(g), Fn: safeFn(in), Name: l.Name, Seq: st.accessSeq})
+}
+
+func (st *State) noteMapAccess(g *G, m *MapObj, write bool, in ssa.Instruction) {
+	if !st.logAccess || g == nil || m == nil {
+		return
+	}
+	pos := safePos(st, in)
+	if strings.Contains(pos, "zz_verif") {
+		return
+	}
+	st.accessSeq++
+	st.accessLog = append(st.accessLog, Access{Map: m, Write: write, Pos: pos, G: g.ID, Locks: st.heldIDs(g), Fn: safeFn(in), Name: fmt.Sprintf("map#%d", m.ID), Seq: st.accessSeq})
+}
+
+// reportRaces: lockset conflicts between accesses of different goroutines to the same location
+// (at least one write, no common lock). Happens-before through `go` and channels is not modelled:
+// these are candidates, to be confirmed by the race detector in the native replay.
+func (st *State) reportRaces() {
+	if !st.logAccess {
+		return
+	}
+	type key struct {
+		loc *Loc
+		m   *MapObj
+	}
+	byLoc := map[key][]int{}
+	var order []key
+	for i, a := range st.accessLog {
+		k := key{a.Loc, a.Map}
+		if _, ok := byLoc[k]; !ok {
+			order = append(order, k)
+		}
+		byLoc[k] = append(byLoc[k], i)
+	}
+	seen := map[string]bool{}
+	for _, k := range order {
+		idx := byLoc[k]
+		// Eraser's exclusive phase for objects allocated during the run: accesses by the allocating goroutine
+		// before any other goroutine touches the object are initialisation, published later under a lock
+		if k.loc != nil && k.loc.Fresh {
+			cut := 0
+			for cut < len(idx) && st.accessLog[idx[cut]].G == k.loc.AllocG {
+				cut++
+			}
+			idx = idx[cut:]
+		}
+		for x := 0; x < len(idx); x++ {
+			for y := x + 1; y < len(idx); y++ {
+				a, b := st.accessLog[idx[x]], st.accessLog[idx[y]]
+				if a.G == b.G || !(a.Write || b.Write) {
+					continue
+				}
+				common := false
+				for _, la := range a.Locks {
+					for _, lb := range b.Locks {
+						if la == lb {
+							common = true
+						}
+					}
+				}
+				if common {
+					continue
+				}
+				if st.orderedByGo(a, b.G) || st.orderedByGo(b, a.G) {
+					continue
+				}
+				p1, p2 := a.Pos, b.Pos
+				if p2 < p1 {
+					p1, p2 = p2, p1
+				}
+				id := "race:" + p1 + "~" + p2
+				if seen[id] {
+					continue
+				}
+				seen[id] = true
+				st.recordViolation("race", id, fmt.Sprintf("unsynchronised accesses to %s: %s (%s, write=%v) and %s (%s, write=%v)",
+					a.Name, a.Pos, shortName(a.Fn), a.Write, b.Pos, shortName(b.Fn), b.Write), token.NoPos, false)
+			}
+		}
+	}
+}
+
+func shortName(s string) string {
+	if i := strings.LastIndex(s, "/"); i >= 0 {
+		return s[i+1:]
+	}
+	return s
 }
